@@ -11,7 +11,7 @@ type envCase struct {
 	TaskEnv    bool // env: of the task
 	Dot1, Dot2 bool // first / second file of the task's dotenv: list
 	Global     int  // 0 none, 1 root Taskfile env:, 2 root Taskfile dotenv: (never both: not ordered by the documentation)
-	Proc       bool // process environment of the CLI
+	Proc       int  // process environment of the CLI: 0 not set, 1 set to a site-naming value, 2 set to the EMPTY string
 	Experiment bool // TASK_X_ENV_PRECEDENCE=1
 	Kind       kind // kLit or kSh for the env: entries
 }
@@ -35,15 +35,18 @@ func (e envCase) key() string {
 	case 2:
 		s = append(s, "globaldot")
 	}
-	if e.Proc {
+	switch e.Proc {
+	case 1:
 		s = append(s, "procenv")
+	case 2:
+		s = append(s, "procenv=empty")
 	}
 	return fmt.Sprintf("experiment=%v|%s", e.Experiment, strings.Join(s, ","))
 }
 
 func (e envCase) count() int {
 	n := 0
-	for _, b := range []bool{e.TaskEnv, e.Dot1, e.Dot2, e.Global != 0, e.Proc} {
+	for _, b := range []bool{e.TaskEnv, e.Dot1, e.Dot2, e.Global != 0, e.Proc != 0} {
 		if b {
 			n++
 		}
@@ -54,9 +57,18 @@ func (e envCase) count() int {
 // expected follows the statement: task env > task dotenv (first file wins) >
 // global env/dotenv; the process environment over all of them unless the
 // experiment is enabled (then it is the fallback).
+// procValue is what a command sees when the process environment decides:
+// "procenv-empty" stands for the empty string (set, not unset).
+func (e envCase) procValue() string {
+	if e.Proc == 2 {
+		return "procenv-empty"
+	}
+	return "procenv.lit"
+}
+
 func (e envCase) expected() string {
-	if e.Proc && !e.Experiment {
-		return "procenv.lit"
+	if e.Proc != 0 && !e.Experiment {
+		return e.procValue()
 	}
 	switch {
 	case e.TaskEnv:
@@ -69,8 +81,8 @@ func (e envCase) expected() string {
 		return "globalenv." + kindName[e.Kind]
 	case e.Global == 2:
 		return "globaldot.lit"
-	case e.Proc:
-		return "procenv.lit"
+	case e.Proc != 0:
+		return e.procValue()
 	}
 	return "unset"
 }
@@ -79,13 +91,15 @@ func envCases() []envCase {
 	var out []envCase
 	seen := map[string]bool{}
 	for _, k := range []kind{kLit, kSh} {
-		for mask := 0; mask < 16; mask++ {
-			for g := 0; g < 3; g++ {
-				for x := 0; x < 2; x++ {
-					e := envCase{TaskEnv: mask&1 != 0, Dot1: mask&2 != 0, Dot2: mask&4 != 0, Proc: mask&8 != 0, Global: g, Experiment: x == 1, Kind: k}
-					if !seen[e.key()] {
-						seen[e.key()] = true
-						out = append(out, e)
+		for mask := 0; mask < 8; mask++ {
+			for proc := 0; proc < 3; proc++ {
+				for g := 0; g < 3; g++ {
+					for x := 0; x < 2; x++ {
+						e := envCase{TaskEnv: mask&1 != 0, Dot1: mask&2 != 0, Dot2: mask&4 != 0, Proc: proc, Global: g, Experiment: x == 1, Kind: k}
+						if !seen[e.key()] {
+							seen[e.key()] = true
+							out = append(out, e)
+						}
 					}
 				}
 			}
@@ -131,7 +145,11 @@ func (sc *scenario) buildEnv() {
 	if e.TaskEnv {
 		t.WriteString("    env:\n" + envEntry("      ", n, "taskenv", e.Kind))
 	}
-	t.WriteString("    cmds:\n      - " + yq(`printf '%s\n' "E|${`+n+`:-unset}|"`) + "\n")
+	// a dynamic variable whose command reads the same environment variable
+	t.WriteString("    vars:\n      SEEN_BY_SH:\n        sh: " + yq(`printf '%s' "${`+n+`-unset}"`) + "\n")
+	// ${N-unset}: an empty value is a value
+	t.WriteString("    cmds:\n      - " + yq(`printf '%s\n' "E|${`+n+`-unset}|"`) + "\n")
+	t.WriteString("      - " + yq(`printf '%s\n' 'S|{{.SEEN_BY_SH}}|'`) + "\n")
 	switch sc.Pos {
 	case 0:
 		root += t.String()
@@ -146,8 +164,11 @@ func (sc *scenario) buildEnv() {
 	files["Taskfile.yml"] = root
 	sc.files = files
 	sc.args = []string{"-s", posTaskPrefix[sc.Pos] + "target"}
-	if e.Proc {
+	switch e.Proc {
+	case 1:
 		sc.env = append(sc.env, n+"=procenv.lit")
+	case 2:
+		sc.env = append(sc.env, n+"=")
 	}
 	if e.Experiment {
 		sc.env = append(sc.env, "TASK_X_ENV_PRECEDENCE=1")
